@@ -275,7 +275,7 @@ def check(run):
         compare(rr['a%d' % k], rr['b%d' % k], kind, a, b, mp, '')
     for sk, a, b, mp in probes:
         stats['soft-keyword-probes'] += 1
-        compare(rr['pa' + sk], rr['pb' + sk], 'rename type to %s' % sk, a, b, mp, 'soft-keyword-type:')
+        compare(rr['pa' + sk], rr['pb' + sk], 'rename type to %s' % sk, a, b, mp, 'soft-keyword-type:%s:' % sk)
     run.cov.update(evaluations=2 * len(plan) + 2 * len(probes) + cstats['comment_texts'], distinct_nontrivial=len(set(p[3] for p in plan)), traces_validated_against_impl=len(plan) + cstats['comment_texts'], **stats, **cstats,
                    rule='generated models (C04 generator, a third with a semantic fault in a label; declaration seeds with functions, structs, typedefs, quantifiers, channel priorities) rewritten by one family: '
                         '(space) the same tokens separated by blanks / tabs / line breaks / block and line comments instead of single blanks; (parens) redundant parentheses around literals and whole guard / invariant / update expressions; '
